@@ -126,7 +126,7 @@ Qed.
 
 Theorem deser_text_total s : deser_text s <> RPanic.
 Proof.
-  unfold deser_text. destruct (filter _ (lines (trim s))) as [|first rest]; [discriminate|].
+  unfold deser_text, deser_lines. destruct (filter _ (lines (trim s))) as [|first rest]; [discriminate|].
   destruct (negb (str_eqb first TFMT_MAGIC)); [discriminate|].
   destruct (group_lines rest None []) as [gs|]; [|discriminate].
   pose proof (run_groups_good gs (mkT [] [] [] None) eq_refl) as H.
@@ -138,7 +138,7 @@ Qed.
 
 Theorem deser_text_pipe_ok s o : deser_text s = ROk o -> src_fits o -> pipe_ok o = true.
 Proof.
-  unfold deser_text. intros H Hs. destruct (filter _ (lines (trim s))) as [|first rest]; [discriminate|].
+  unfold deser_text, deser_lines. intros H Hs. destruct (filter _ (lines (trim s))) as [|first rest]; [discriminate|].
   destruct (negb (str_eqb first TFMT_MAGIC)); [discriminate|].
   destruct (group_lines rest None []) as [gs|]; [|discriminate].
   pose proof (run_groups_good gs (mkT [] [] [] None) eq_refl) as Hg.
